@@ -429,3 +429,30 @@ VARIANTS += [
     V('C03-M22', 'M', ('C03',), ST, 'Mapper.__iter__', r'func = self\.func\n\s+for v in self\._instream:\n\s+yield func\(v\)', 'yield from map(self.func, self._instream)', ('C03-2',), note='seeded C03-r2m1 shape'),
     V('C09-M22', 'M', ('C09',), WK, 'Worker._start_single.get_input', r'(\n(\s+)q_uid\.put\(uid\)\n)', r'\n\2if preprocess is not None:\n\2    x = preprocess(x)\1', ('C09-1',), note='a value returned by preprocess reaches call unscreened'),
 ]
+
+# ---------------------------------------------------------------------- consistent renames of private functions (rename tolerance, mpsa/anchors.py)
+VARIANTS += [
+    V('G-fn-01', 'E', ALL, WK, None, r'_start_single', '_run_single', count=0, flags=0),
+    V('G-fn-02', 'E', ALL, WK, None, r'_build_input_batches', '_collect_batches', count=0, flags=0),
+    V('G-fn-03', 'E', ALL, WK, None, r'_get_input_batch\b', '_take_batch', count=0, flags=0),
+    V('G-fn-04', 'E', ALL, SV, None, r'_gather_output', '_collect_output', count=0, flags=0),
+    V('G-fn-05', 'E', ALL, ST, None, r'\bfeed\b', 'feeder_main', count=0, flags=0),
+    V('G-fn-06', 'E', ALL, ST, None, r'_run_worker', '_produce', count=0, flags=0),
+    V('G-fn-07', 'E', ALL, CX, None, r'_collect_result', '_gather_result', count=0, flags=0),
+    V('G-fn-08', 'E', ALL, CX, None, r'_run_logger', '_pump_logs', count=0, flags=0),
+    V('G-fn-09', 'E', ALL, QU, None, r'_get_put', '_timed_op', count=0, flags=0),
+    V('G-fn-10', 'E', ALL, SO, None, r'_keep_responding', '_respond_loop', count=0, flags=0),
+    V('G-fn-11', 'E', ALL, SL, None, r'\b_dequeue\b', '_route_results', count=0, flags=0),
+    V('G-fn-12', 'E', ALL, SA, None, r'_finalize', '_shutdown', count=0, flags=0),
+    V('G-fn-13', 'E', ALL, SP, None, r'\b_wrap_user_exc\b', '_pack_user_error', count=0, flags=0),
+    V('G-fn-14', 'E', ALL, RE, None, r'_rebuild_exception', '_restore_exception', count=0, flags=0, note='cross-module reference in server_process.py is not renamed by this variant: the variant only edits one file'),
+    V('G-fn-15', 'E', ALL, TE, None, r'\bTeeX\b', 'Cell', count=0, flags=0, note='class rename'),
+    V('G-fn-16', 'E', ALL, SV, None, r'\b_wait_for_result\b', '_await_outcome', count=0, flags=0),
+    V('G-fn-17', 'E', ALL, CX, None, r'\b_close_logger\b', '_drain_logger', count=0, flags=0),
+]
+
+VARIANTS += [
+    V('C11-M20', 'M', ('C11',), WK, 'Worker.start', r'(\n        )try:\n(\s+)if self\.batch_size > 1:', r'\1if self.cpu_affinity is not None:\1    os.sched_setaffinity(0, self.cpu_affinity)\1try:\n\2if self.batch_size > 1:', ('C11-7',), note='seeded C11-r2m1 shape'),
+    V('C11-M21', 'M', ('C11',), WK, 'Worker.run', r'(\n        )obj\.start\(q_in=q_in, q_out=q_out\)', r'\1obj.warm_up()\1obj.start(q_in=q_in, q_out=q_out)', ('C11-7',)),
+    V('C11-E20', 'E', ALL, WK, 'Worker.start', r'(\n        )try:\n(\s+)if self\.batch_size > 1:', r'\1try:\n\2logger.debug("worker %s enters its service loop", self.name)\n\2if self.batch_size > 1:'),
+]
